@@ -57,12 +57,24 @@ func c21Run1(c c21Case) (*eng.Fail, bool) {
 		bs    []byte
 	}
 	var bl []blk
+	// the byte slices handed in are windows of one buffer (spare capacity behind each, filled
+	// with a sentinel): nothing may be written behind them
+	var backing []byte
+	var spans [][2]int
 	for _, b := range c.Blocks {
 		var bs []byte
 		fmt.Sscanf(b.Hex, "%x", &bs)
+		spans = append(spans, [2]int{len(backing), len(backing) + len(bs)})
+		backing = append(backing, bs...)
+		backing = append(backing, 0xee, 0xee, 0xee, 0xee, 0xee, 0xee, 0xee, 0xee)
+	}
+	backingCopy := append([]byte{}, backing...)
+	for i, b := range c.Blocks {
+		bs := backing[spans[i][0]:spans[i][1]]
 		vb = append(vb, elf.VerifBlock{Begin: modelAddr(b.Begin), Bytes: bs})
 		bl = append(bl, blk{b.Begin, append([]byte{}, bs...)})
 	}
+	defer func() { _ = backingCopy }()
 	mem, err := elf.VerifNewMemory(vb)
 	if err != nil {
 		return nil, false // overlapping layout: not a code image
@@ -72,6 +84,9 @@ func c21Run1(c c21Case) (*eng.Fail, bool) {
 	var ins []parser.Instruction
 	var perr error
 	p, stack := eng.Catch(func() { ins, perr = parser.Parse(mem, ps) })
+	if p == nil && fmt.Sprintf("%x", backing) != fmt.Sprintf("%x", backingCopy) {
+		return &eng.Fail{Sig: "image bytes altered", What: fmt.Sprintf("building the block store / parsing changed the buffer the blocks were windows of: %x -> %x", backingCopy, backing), Case: c}, false
+	}
 	if p != nil {
 		return &eng.Fail{Sig: "Parse panic " + eng.PanicSite(stack), What: fmt.Sprintf("parser.Parse panics: %v", p), Case: c}, false
 	}
